@@ -72,6 +72,7 @@ func sharedAllOfRoots() (r1, r2 *jschema.Schema) {
 // the root of the goroutine mixes: type references, an or rule of rule sets, an or shortcut, enum, regex, a key shortcut
 const mixRootText = "{\n  \"a\": @T,\n  \"c\": @C, // {optional: true}\n  \"l\": [ // {optional: true}\n    @T\n  ],\n" +
 	"  \"o\": 1, // {optional: true, or: [{type: \"integer\"}, {type: \"string\", maxLength: 3}]}\n  \"u\": @T | @A, // {optional: true}\n" +
+	"  \"n\": @T, // {optional: true, nullable: true}\n  \"m\": @A | @T, // {optional: true, nullable: true}\n" +
 	"  \"e\": \"x\", // {optional: true, enum: [\"x\", \"y\"]}\n  \"r\": \"ab\", // {optional: true, regex: \"^a\"}\n  @K: true // {optional: true}\n}"
 const mixKeyText = "\"kk\" // {regex: \"^k\"}"
 
@@ -192,7 +193,7 @@ func init() {
 			schemas []*jschema.Schema
 		}
 		docs := []string{`{"a": 1, "c": {"p": 1, "q": 2}}`, `{"a": -1}`, `{"a": 1}`, `[1]`, `{"a": 1, "c": {"p": 1}}`,
-			`{"a": 1, "o": "abc", "u": {"p": 1}, "e": "y", "r": "ax", "kz": true}`, `{"a": 1, "o": "abcd"}`, `{"a": 1, "u": 7, "kz": 1}`}
+			`{"a": 1, "o": "abc", "u": {"p": 1}, "e": "y", "r": "ax", "kz": true}`, `{"a": 1, "o": "abcd"}`, `{"a": 1, "u": 7, "kz": 1}`, `{"a": 1, "n": null, "m": null}`, `{"a": 1, "n": 2, "m": {"p": 1}}`}
 		build := func() []*jschema.Schema {
 			t := jschema.New("@T", "1 // {min: 0}")
 			a := jschema.New("@A", "{\n  \"p\": 1\n}")
